@@ -30,11 +30,30 @@ RCP<const Basic> ComplexDouble::conjugate() const
     double im = -i.imag();
     return complex_double(std::complex<double>(re, im));
 }
+// Total order on doubles used for structural comparison: -0.0 == 0.0, NaN
+// equals NaN and sorts after every other value.
+static int compare_part(double a, double b)
+{
+    if (a == b)
+        return 0;
+    if (std::isnan(a) or std::isnan(b)) {
+        if (std::isnan(a) and std::isnan(b))
+            return 0;
+        return std::isnan(a) ? 1 : -1;
+    }
+    return a < b ? -1 : 1;
+}
+
+static double hash_part(double a)
+{
+    return a == 0.0 ? 0.0 : std::isnan(a) ? std::nan("") : a;
+}
+
 hash_t ComplexDouble::__hash__() const
 {
     hash_t seed = SYMENGINE_COMPLEX_DOUBLE;
-    hash_combine<double>(seed, i.real());
-    hash_combine<double>(seed, i.imag());
+    hash_combine<double>(seed, hash_part(i.real()));
+    hash_combine<double>(seed, hash_part(i.imag()));
     return seed;
 }
 
@@ -42,7 +61,8 @@ bool ComplexDouble::__eq__(const Basic &o) const
 {
     if (is_a<ComplexDouble>(o)) {
         const ComplexDouble &s = down_cast<const ComplexDouble &>(o);
-        return this->i == s.i;
+        return compare_part(i.real(), s.i.real()) == 0
+               and compare_part(i.imag(), s.i.imag()) == 0;
     }
     return false;
 }
@@ -51,12 +71,10 @@ int ComplexDouble::compare(const Basic &o) const
 {
     SYMENGINE_ASSERT(is_a<ComplexDouble>(o))
     const ComplexDouble &s = down_cast<const ComplexDouble &>(o);
-    if (i == s.i)
-        return 0;
-    if (i.real() == s.i.real()) {
-        return i.imag() < s.i.imag() ? -1 : 1;
-    }
-    return i.real() < s.i.real() ? -1 : 1;
+    int c = compare_part(i.real(), s.i.real());
+    if (c != 0)
+        return c;
+    return compare_part(i.imag(), s.i.imag());
 }
 
 RCP<const ComplexDouble> complex_double(std::complex<double> x)
